@@ -177,6 +177,8 @@ PLANS["C06"] = {
         T("general", "general", (30, 800), ["InvAudit"]),
         # multi-page collections: bulk operations, DropIndex / CreateIndex over hundreds of entries
         T("bulk", "bulk", (24, 240), ["InvAudit"], backends="bolt,badger", chunk=3, heap="6g"),
+        # documents whose _expiresAt has passed (or passes meanwhile) have their index entries like any other
+        T("expiry", "expiry", (4, 40), ["InvAudit"], chunk=2, seed_off=19),
         EDG("edges", ["InvAudit"], states=(30, 0), reads=(1, 1), writes=(25, 60)),
         # a batch beyond the store's transaction limit that fails late: counts, documents and entries stay consistent
         T("huge", "huge", (2, 8), ["InvErrNoTrace", "InvAudit"], backends="rotate", chunk=1, heap="8g"),
